@@ -80,6 +80,10 @@ def has_nan(m):
     return False
 
 
+def _has_qty(m):
+    return any(k == 'qty' for _, k in model.kinds(m))
+
+
 def _eq(a, b):
     return a == b
 
@@ -100,7 +104,8 @@ def check_pair(ma, mb, excl=frozenset()):
         try:
             res[name] = fn(x, y)
         except TypeError as e:
-            if both_qty_diff_unit:
+            if both_qty_diff_unit or ('Quantity units differ' in str(e) and _has_qty(ma) and _has_qty(mb)):
+                # the documented exception, also when the two quantities sit inside lists/dicts that are compared
                 res[name] = 'TypeError'
                 continue
             if is_grid and 'grideq.raises' in excl:
@@ -110,7 +115,7 @@ def check_pair(ma, mb, excl=frozenset()):
             if is_grid and 'grideq.raises' in excl:
                 return
             raise Violation('raises', case, '%s raised %s' % (name, describe_exc(e)), tags)
-    if both_qty_diff_unit:
+    if both_qty_diff_unit or 'TypeError' in res.values():
         return
     for k, v in res.items():
         if not isinstance(v, bool):
@@ -235,6 +240,10 @@ def changed(v):
         return ['coord', v[1], v[2] + 1.0 if v[2] < 100 else v[2] - 1.0]
     if k == 'list':
         return ['list', v[1] + [['marker']]]
+    if k == 'dict':
+        if v[1]:
+            return ['dict', [[v[1][0][0] + 'x', v[1][0][1]]] + v[1][1:]]     # one tag renamed
+        return ['dict', [['added', ['marker']]]]
     if k == 'xstr' and v[1] not in ('hex', 'b64'):
         return ['xstr', v[1], v[2] + 'x']
     return None
@@ -282,6 +291,14 @@ def edits(m):
             if ch is not None:
                 nr = r[:xi] + [[c, ch]] + r[xi + 1:]
                 yield 'cell-content:%s' % v[0], ['grid', ver, meta, cols, rows[:ri] + [nr] + rows[ri + 1:]]
+            if v[0] in ('num', 'qty') and isinstance(v[1], (int, float)) and math.isfinite(v[1]):
+                # the smallest changes that are beyond the 1e-6 tolerance
+                for delta in (1e-5, -1e-5, 1.0):
+                    nv = v[1] + delta
+                    if abs(nv - v[1]) > 2e-6:
+                        ch2 = [v[0], nv] + v[2:]
+                        nr = r[:xi] + [[c, ch2]] + r[xi + 1:]
+                        yield 'cell-content-small:%s' % v[0], ['grid', ver, meta, cols, rows[:ri] + [nr] + rows[ri + 1:]]
             nr = r[:xi] + r[xi + 1:]
             yield 'cell-removed', ['grid', ver, meta, cols, rows[:ri] + [nr] + rows[ri + 1:]]
             return
